@@ -19,10 +19,11 @@ extern "C" __attribute__((used)) const char *__asan_default_options() {
 extern "C" __attribute__((used)) const char *__ubsan_default_options() { return "print_stacktrace=0:halt_on_error=0:exitcode=77:silence_unsigned_overflow=1"; }
 
 // UBSan monitor interface: every report is recorded (kind, file, line) for the run in progress; the C08 oracle reads it.
-extern "C" void __ubsan_get_current_report_data(const char **kind, const char **msg, const char **file, unsigned *line, unsigned *col, char **addr);
+extern "C" __attribute__((weak)) void __ubsan_get_current_report_data(const char **kind, const char **msg, const char **file, unsigned *line, unsigned *col, char **addr);
 static std::vector<std::string> g_ubsan_reports;
 extern "C" __attribute__((used)) void __ubsan_on_report(void) {
     const char *kind = nullptr, *msg = nullptr, *file = nullptr; unsigned line = 0, col = 0; char *addr = nullptr;
+    if (!__ubsan_get_current_report_data) { return; }
     __ubsan_get_current_report_data(&kind, &msg, &file, &line, &col, &addr);
     std::string f = file ? file : "?";
     size_t sl = f.rfind('/'); if (sl != std::string::npos) { f = f.substr(sl + 1); }
